@@ -109,6 +109,8 @@ class Sym:
         self.upper = {}               # atom -> [Poly]  (atom <= each)
         self.weak = set()             # atoms some of whose bounds did not resolve
         self.phi = {}                 # atom -> [Poly]  (the value is one of these)
+        self.phi_zero = {}            # atom -> [frozenset(atoms known to be 0 when that alternative is taken)]
+        self.divinfo = {}             # atom -> (op, dividend Poly, divisor Poly)   op in Div / Rem / DivCeil
 
     # ---- atoms
     def _known(self, name, desc):
@@ -258,6 +260,8 @@ class Sym:
                 args = [self.operand(a) for a in t["args"]]
                 nm = "%s(%s)@%s" % (o.split("::")[-1], ", ".join(map(repr, args)), self._lname(l))
                 p = self._known(nm, "integer helper")
+                if o.endswith("::div_ceil") and len(args) == 2:
+                    self.divinfo[nm] = ("DivCeil", args[0], args[1])
                 if o.endswith("::saturating_sub"):
                     self.upper[nm] = [args[0]]
                 self._bounds_quality(nm, args)
@@ -286,6 +290,8 @@ class Sym:
             if op in DIVLIKE:
                 nm = "%s(%s, %s)" % (op.lower(), a, b)
                 p = self._known(nm, "integer %s" % op.lower())
+                if op in ("Div", "Rem"):
+                    self.divinfo[nm] = (op, a, b)
                 if op in ("Div", "Shr", "ShrUnchecked", "BitAnd"):
                     self.upper[nm] = [a]
                 elif op == "Rem":
@@ -364,6 +370,7 @@ class Sym:
         if not steps and inits and all(self.decided(x) for x in inits):
             nm = "oneof@%s" % self._lname(l)
             self.phi[nm] = inits
+            self.phi_zero[nm] = [self._guard_zero(s_) for s_ in ds]
             return self._known(nm, "one of several values, by control flow")
         if len(inits) != 1 or not steps:
             return self._opaque(self._lname(l), "several unrelated definitions")
@@ -374,6 +381,53 @@ class Sym:
         nm = "grown@%s" % self._lname(l)
         g = self._known(nm, "what a monotone accumulator has gained")
         return inits[0] + g
+
+    def _guard_zero(self, s):
+        """Atoms known to be zero on the path to definition site s: the site's block is entered (through gotos only)
+        from one arm of a two-way switch on `x > 0` / `x != 0` / `x == 0` / `x >= 1` / `x < 1` / `x <= 0`, and the arm
+        taken says x == 0.  Only a single unsigned atom x is recorded; anything else yields no fact."""
+        from cfg import cfg_of
+        g = cfg_of(self.f)
+        b = s.bb
+        for _ in range(4):
+            ps = g.pred[b]
+            if len(ps) != 1:
+                return frozenset()
+            t = self.f.blocks[ps[0]]["term"]
+            if t["k"] == "goto":
+                b = ps[0]
+                continue
+            if t["k"] != "switch" or t.get("op_ty") != "bool" or len(t["targets"]) != 1:
+                return frozenset()
+            val, tb = t["targets"][0]
+            if tb == t["otherwise"]:
+                return frozenset()
+            cond_true = (b == t["otherwise"]) if str(val) == "0" else (b == tb)
+            if not cond_true and b != (tb if str(val) == "0" else t["otherwise"]):
+                return frozenset()
+            cl = op_local(t["op"])
+            ds = whole_defs(self.f, cl) if cl is not None else []
+            if len(ds) != 1 or ds[0].is_term or ds[0].node["rv"]["k"] != "bin":
+                return frozenset()
+            rv = ds[0].node["rv"]
+            x, kc = rv["a"], rv["b"]
+            op = rv["op"]
+            if "c" in x and "c" not in kc:       # constant on the left: mirror
+                x, kc = kc, x
+                op = {"Gt": "Lt", "Lt": "Gt", "Ge": "Le", "Le": "Ge"}.get(op, op)
+            if "c" not in kc or not isinstance(kc["c"].get("v"), int) or isinstance(kc["c"].get("v"), bool):
+                return frozenset()
+            k = kc["c"]["v"]
+            zero = (op == "Gt" and k == 0 and not cond_true) or (op == "Ne" and k == 0 and not cond_true) \
+                or (op == "Eq" and k == 0 and cond_true) or (op == "Ge" and k == 1 and not cond_true) \
+                or (op == "Lt" and k == 1 and cond_true) or (op == "Le" and k == 0 and cond_true)
+            if not zero:
+                return frozenset()
+            px = self.operand(x)
+            if len(px.t) == 1 and list(px.t.values()) == [1] and len(list(px.t)[0]) == 1:
+                return frozenset([list(px.t)[0][0]])
+            return frozenset()
+        return frozenset()
 
     # ---- proving
     def decided(self, p):
